@@ -41,6 +41,9 @@ pub struct Features {
     pub pickups: bool,
     /// Random error flags (legal input, known finding domain) instead of two "islands" (verdict domain).
     pub unreachable_random: bool,
+    /// Focus profile: many deliveries, tight capacity, every shift with reloads bound to one shared resource
+    /// (rare states: several tours drawing from the same resource).
+    pub reload_focus: bool,
 }
 
 impl Features {
@@ -53,7 +56,7 @@ impl Features {
             multi_job, multi_dim, multi_tw, multi_place, tags, skills, groups, compat, order, value, limits, tour_size,
             multi_shift, open_end, latest_departure, unreachable, multi_profile, scale, reloads, shared_reload,
             opt_breaks, req_breaks, relations, nonmetric, asymmetric, objectives, same_location, tight, many_vehicles,
-            replacement, service, pickups, unreachable_random
+            replacement, service, pickups, unreachable_random, reload_focus
         );
         v
     }
@@ -75,6 +78,20 @@ impl Features {
         );
         f.shared_reload = f.shared_reload && f.reloads;
         f.unreachable_random = f.unreachable && p.chance(0.35);
+        // swarm focus profiles: force a feature combination whose interesting states are rare under independent draws
+        if allowed.reloads && allowed.shared_reload && p.chance(0.07) {
+            f.reload_focus = true;
+            f.reloads = true;
+            f.shared_reload = true;
+            f.tight = allowed.tight;
+            f.many_vehicles = allowed.many_vehicles;
+            f.pickups = false;
+            f.multi_job = false;
+            f.replacement = false;
+            f.service = false;
+            f.opt_breaks = false;
+            f.multi_shift = false;
+        }
         f
     }
 
@@ -87,6 +104,7 @@ impl Features {
             objectives: true, same_location: true, tight: true, many_vehicles: true, replacement: true, service: true,
             pickups: true,
             unreachable_random: true,
+            reload_focus: false,
         }
     }
 }
@@ -196,6 +214,7 @@ pub fn generate(seed: u64, limits: &GenLimits, allowed: &Features) -> GenProblem
     let mut p = Prng::derive(seed, "workload");
     let f = Features::random(&mut p, allowed);
     let n_jobs = if p.chance(0.1) { p.usize(1, 3.min(limits.max_jobs)) } else { p.usize(1, limits.max_jobs) };
+    let n_jobs = if f.reload_focus { limits.max_jobs.max(n_jobs) } else { n_jobs };
     let dims = if f.multi_dim { p.usize(2, 3) } else { 1 };
     let horizon: i64 = *p.pick(&[8_000, 20_000, 40_000]);
     let n_loc = if f.same_location { p.usize(2, (n_jobs / 2).max(2) + 1) } else { p.usize(2, 2 * n_jobs + 3) };
@@ -353,7 +372,7 @@ pub fn generate(seed: u64, limits: &GenLimits, allowed: &Features) -> GenProblem
                 let end_loc = if cx.p.chance(0.7) { depot } else { cx.p.usize(0, n_loc - 1) };
                 shift.insert("end".into(), json!({ "latest": fmt_time(T0 + t_start + len), "location": loc(end_loc) }));
             }
-            if f.reloads && cx.p.chance(0.7) {
+            if f.reloads && (cx.p.chance(0.7) || f.reload_focus) {
                 let n = cx.p.usize(1, 2);
                 let mut reloads = vec![];
                 for r in 0..n {
@@ -367,7 +386,7 @@ pub fn generate(seed: u64, limits: &GenLimits, allowed: &Features) -> GenProblem
                     if f.tags && cx.p.chance(0.5) {
                         rm.insert("tag".into(), json!(format!("reload{t}_{r}")));
                     }
-                    if f.shared_reload && cx.p.chance(0.6) {
+                    if f.shared_reload && (cx.p.chance(0.6) || f.reload_focus) {
                         if resources.is_empty() {
                             let cap: Vec<i64> = (0..dims).map(|_| cx.p.range(4, 30)).collect();
                             resources.push(json!({ "type": "reload", "id": "res0", "capacity": cap }));
